@@ -38,7 +38,7 @@ def register(reg):
     both = "for h in range(P.depth + 1) for k in range(len(P.node_list[h]))"
     pred("TW_shape", "P", "P.depth >= 0 and len(P.node_list) == P.depth + 1 "
                           "and all(len(P.node_list[h]) >= 1 and P.node_list[h][0].depth == h for h in range(P.depth + 1))")
-    pred("TW_root", "P", "len(P.node_list[0]) == 1 and P.node_list[0][0] is P.root and P.root.parent is None "
+    pred("TW_root", "P", "len(P.node_list[0]) == 1 and P.node_list[0][0] is P.root and P.root in P.node_list[0] and P.root.parent is None "
                          "and P.root.index == 1 and P.root.domain is P.domain")
     pred("TW_listed", "P", "all(P.node_list[h][k] in P.node_list[h] %s)" % both)
     pred("TW_depths", "P", "all(P.node_list[h][k].depth == h %s)" % both)
@@ -110,6 +110,12 @@ def register(reg):
            ("layer-lens", "all(len(self.node_list[h]) == old(len(self.node_list[h])) + "
                           "(len(parent.children) if h == parent.depth + 1 else 0) for h in range(old(self.depth) + 1))", "C03"),
            ("new-layer", "implies(newlayer, len(self.node_list[self.depth]) == len(parent.children))", "C03"),
+           ("new-elems", "implies(newlayer, all(self.node_list[parent.depth + 1][j] is parent.children[j] "
+                         "for j in range(len(parent.children))))", "C03 C04"),
+           ("new-elems-ext", "implies(not newlayer, all(self.node_list[parent.depth + 1][k] is "
+                             "parent.children[k - old(len(self.node_list[parent.depth + 1]))] "
+                             "for k in range(old(len(self.node_list[parent.depth + 1])), len(self.node_list[parent.depth + 1]))))",
+            "C03 C04"),
        ])
 
     # ------------------------------------------------------------------ geometry of a split (C02)
